@@ -232,15 +232,7 @@ func TestVerifC13Load(t *testing.T) {
 	}
 	last := int(configmigrate.LastSchemaVersion)
 
-	setup := func(body []byte) (path string) {
-		work := t.TempDir()
-		globalContext.workDir = work
-		globalContext.confFilePath = filepath.Join(work, "AdGuardHome.yaml")
-		if werr := os.WriteFile(globalContext.confFilePath, body, 0o644); werr != nil {
-			t.Fatal(werr)
-		}
-		return globalContext.confFilePath
-	}
+	setup := func(body []byte) (path string) { return c13LoadSetup(t, body) }
 
 	for i, d := range docs {
 		path := setup(d.Body)
@@ -306,6 +298,9 @@ func TestVerifC13Load(t *testing.T) {
 				wit(map[string]any{"file_after_first": c13LoadHead(after), "file_after_second": c13LoadHead(after2)}))
 		}
 	}
+
+	// Write faults while the upgraded file is stored (c13_loadfault_test.go).
+	c13LoadFaults(t, rep, docs, last)
 
 	// Controls: documents the upgrade or the loader must refuse.  They show
 	// that a rejection is observable here, and that a failed load leaves the
